@@ -10,4 +10,5 @@ EXPLANATION = "Proved: the branch structure of _excel_cell_value per cell type a
 LEVEL_TEXT = "Deductive proof of cutplace's share (branching, slicing, sheet selection, row shape, fault conversion); bounded workbook audit for the dependency axioms."
 LEVEL_NOTE = "Trusts xlrd / xlsxwriter / CPython float and datetime rendering through audited axioms, the pyvc encoding, z3/cvc5."
 TECHNIQUE = "contract-based deductive verification (VCs from the ast of the real functions, z3/cvc5) + bounded workbook audit"
-UNITS = [XL.unit_excel_cell_value(), XL.unit_excel_rows(), XL.unit_excel_workbooks()]
+from contracts import validio as VIO
+UNITS = [XL.unit_excel_cell_value(), XL.unit_excel_rows(), VIO.unit_raw_rows(), XL.unit_excel_workbooks()]
